@@ -500,6 +500,10 @@ def localize_incompatible(ext, base, depth=0):
       bc = union_counterpart(base, ec)
       if bc is not None and not isinstance(bc, T.Union):
         pairs.append((ec, bc))
+      elif bc is None:
+        # No candidate of the base takes this (extended) candidate any more:
+        # compare it with the base candidates of its own class.
+        pairs.extend((ec, c) for c in base.candidates if type(c) is type(ec))
   elif isinstance(ext, T.List) and isinstance(base, T.List):
     pairs = [(ext.element.value, base.element.value)]
   elif isinstance(ext, T.Tuple) and isinstance(base, T.Tuple):
